@@ -266,3 +266,38 @@ def envelope_labels(kind, lp, has_params):
             if msg.get(k) != v or (k in msg) != (k in env):
                 return False
     return True
+
+
+# ---------------------------------------------------------------- re-generation into the same directory
+def regen_ok(base, custom_a, custom_b, use, stale):
+    """run the real plugin entry point twice into one output directory, for metamodel revision A then B (the
+    enumeration's supportsCustomValues / use site change, so labels of unchanged contents flip): afterwards the directory
+    holds exactly B's vectors - no file of revision A (and no hand-placed stale vector) survives with a label that is
+    wrong under B"""
+    import os
+    import shutil
+    import tempfile
+
+    from props import evolve as E
+    from vlib.xhrt import concretize
+    from generator.plugins.testdata import testdata_utils as tu
+
+    base, custom_a, custom_b, use, stale = concretize(base, 3), concretize(custom_a, 3), concretize(custom_b, 3), concretize(use, 3), concretize(stale, 2)
+    with E.NoTracing():
+        doc_a, doc_b = E.doc_enum(base, custom_a, 0, use), E.doc_enum(base, custom_b, 0, use)
+        out = tempfile.mkdtemp(prefix="verif-c17-regen-")
+        try:
+            tu.generate_from_spec(model.create_lsp_model([E.copy.deepcopy(doc_a)]), out, out)
+            if stale:
+                with open(os.path.join(out, "EvoRunTaskRequest-True-" + "0" * 64 + ".json"), "w") as f:
+                    f.write("{}")
+            tu.generate_from_spec(model.create_lsp_model([E.copy.deepcopy(doc_b)]), out, out)
+            want = tg.generate(model.create_lsp_model([E.copy.deepcopy(doc_b)]), E.logging.getLogger("verif-c17"))
+            got = {}
+            for name in os.listdir(out):
+                if name.endswith(".json"):
+                    with open(os.path.join(out, name), encoding="utf-8") as f:
+                        got[name] = f.read()
+            return got == want
+        finally:
+            shutil.rmtree(out, ignore_errors=True)
